@@ -17,7 +17,7 @@
 (***************************************************************************)
 EXTENDS HQTrace, HQModel
 
-cvars == <<tvars, panic, wkq, submitted, budget, armedFail, drift, journal>>
+cvars == <<tvars, panic, wkq, submitted, budget, armedFail, drift, journal, late>>
 VARIABLES ncomp, pf   \* ncomp: steps compared; pf: proactive-filling configuration of the current run (from its Reset line)
 
 \* ---- what the model covers
@@ -185,10 +185,10 @@ ConfViol(e, pre) ==
 \* number of steps compared (for the evidence)
 Compared(e) == SnOnly /\ NoTime /\ e.a \in {"W2S", "Cancel", "Lose", "S2W", "Exit", "Schedule", "Submit"}
 
-ConfInit == TraceInit /\ panic = "" /\ wkq = <<>> /\ submitted = {} /\ budget = <<>> /\ armedFail = {} /\ drift = {} /\ journal = <<>> /\ ncomp = 0 /\ pf = [reserve |-> 0, max |-> 1]
+ConfInit == TraceInit /\ panic = "" /\ wkq = <<>> /\ submitted = {} /\ budget = <<>> /\ armedFail = {} /\ drift = {} /\ journal = <<>> /\ late = {} /\ ncomp = 0 /\ pf = [reserve |-> 0, max |-> 1]
 
 ConfNext ==
-  /\ UNCHANGED <<panic, wkq, submitted, budget, armedFail, drift, journal>>
+  /\ UNCHANGED <<panic, wkq, submitted, budget, armedFail, drift, journal, late>>
   /\ l <= Len(Rec)
   /\ LET e == Rec[l]
          live == alive /\ e.a # "Reset" /\ e.pan = 0 /\ l > 1
